@@ -69,11 +69,32 @@ structure Leaf where
   quoted : Bool
   deriving Repr
 
-/-- save-style document values: scalars, objects (key operator value), arrays, header values
+/-- a key as written: its bytes (between the quotes for a quoted key) and what the text syntax allows
+around it without changing the value on either path -/
+structure Key where
+  bytes : Bytes
+  quoted : Bool := false
+  /-- empty `{}` in front of the key (key position: dropped by the tape parser, skipped by the reader path) -/
+  ghosts : Nat := 0
+  /-- the `=` between the key and a `{` is left out (`a{ … }`); it has an effect only where the
+  syntax allows it: operator `=`, value an object or an array -/
+  noEq : Bool := false
+  /-- empty `{}` behind the value (key position as well) -/
+  trail : Nat := 0
+  deriving Repr
+
+/-- an unquoted key followed by its operator: the save-style case -/
+abbrev Key.plain (b : Bytes) : Key := ⟨b, false, 0, false, 0⟩
+
+/-- bytes stand for the plain key (documents written as `(bytes, op, value)` lists keep their meaning) -/
+instance : Coe Bytes Key := ⟨fun b => ⟨b, false, 0, false, 0⟩⟩
+
+/-- document values: scalars (quoted or not; a variable `@name` is an unquoted scalar like any other),
+objects (key operator value, with the decorations of `Key`), arrays, header values
 (`rgb { 1 2 3 }`: an unquoted name followed by a container) -/
 inductive Node where
   | leaf (l : Leaf)
-  | obj (fs : List (Bytes × Op × Node))
+  | obj (fs : List (Key × Op × Node))
   | arr (vs : List Node)
   | hdr (name : Bytes) (body : Node)
   deriving Repr
@@ -87,7 +108,7 @@ def Node.wf : Node → Bool
   | .hdr _ (.obj fs) => wfFields fs
   | .hdr _ (.arr vs) => wfNodes vs
   | .hdr _ _ => false
-def wfFields : List (Bytes × Op × Node) → Bool
+def wfFields : List (Key × Op × Node) → Bool
   | [] => true
   | (_, _, v) :: r => v.wf && wfFields r
 def wfNodes : List Node → Bool
@@ -106,7 +127,7 @@ def expandNodes : List Node → List Node
   | v :: r => v :: expandNodes r
 
 /-- a document is the field list of its top-level object -/
-abbrev Doc := List (Bytes × Op × Node)
+abbrev Doc := List (Key × Op × Node)
 
 /-! ### values -/
 
@@ -137,23 +158,37 @@ def seqVals (valF : Node → R Val) : List Node → R (List Val)
       | .error e => .error e
       | .ok tl => .ok (x :: tl)
 
+/-- elements of a fixed-length tuple: exactly as many values as the tuple has types are taken, left to
+right, the first error wins; a missing value is `invalid length`; values BEHIND the last one taken are
+not looked at (that is the tape path; the reader path then demands the closing brace, see `Fits.tup`) -/
+def tupVals (valF : Ty → Node → R Val) : List Ty → List Node → R (List Val)
+  | [], _ => .ok []
+  | _ :: _, [] => .error .other
+  | t :: r, x :: xs =>
+    match valF t x with
+    | .error e => .error e
+    | .ok v =>
+      match tupVals valF r xs with
+      | .error e => .error e
+      | .ok tl => .ok (v :: tl)
+
 /-- entries of a map in document order: decoded key, value -/
-def mapVals (enc : Enc) (valF : Op → Node → R Val) : List (Bytes × Op × Node) → List (Val × Val) → R (List (Val × Val))
+def mapVals (enc : Enc) (valF : Op → Node → R Val) : List (Key × Op × Node) → List (Val × Val) → R (List (Val × Val))
   | [], acc => .ok acc
   | (k, o, v) :: r, acc =>
     match valF o v with
     | .error e => .error e
-    | .ok x => mapVals enc valF r (acc ++ [(Val.str (decode enc k), x)])
+    | .ok x => mapVals enc valF r (acc ++ [(Val.str (decode enc k.bytes), x)])
 
 /-- fields of a struct in document order: a declared field takes its value (a second occurrence is
 the error `duplicate`), an unknown field is ignored whatever its value is -/
 def structVals (enc : Enc) (fs : List (Bytes × Ty)) (valF : Ty → Op → Node → R Val) :
-    List (Bytes × Op × Node) → List (Nat × Val) → R (List (Nat × Val))
+    List (Key × Op × Node) → List (Nat × Val) → R (List (Nat × Val))
   | [], seen => .ok seen
   | (k, o, v) :: r, seen =>
-    match lookupIdx (decode enc k) fs 0 with
+    match lookupIdx (decode enc k.bytes) fs 0 with
     | some (i, t) =>
-      if (seenGet i seen).isSome then .error (.duplicate (decode enc k)) else
+      if (seenGet i seen).isSome then .error (.duplicate (decode enc k.bytes)) else
       match valF t o v with
       | .error e => .error e
       | .ok x => structVals enc fs valF r (seen ++ [(i, x)])
@@ -228,6 +263,10 @@ def valueOfN (enc : Enc) : Nat → Ty → Op → Node → R Val
        | .arr [] => (structFinish fs 0 []).map Val.st
        | _ => .error .type)
     | .any => anyVal enc v
+    | .tup ts =>
+      (match v with
+       | .arr vs => (tupVals (fun t x => valueOfN enc f t .eq x) ts (expandNodes vs)).map Val.tup
+       | _ => .error .type)
     | ty =>
       -- a header value read with a scalar target yields the header's name; its body is skipped
       (match v with
@@ -269,9 +308,9 @@ inductive Fits (enc : Enc) : Ty → Node → Prop where
   | opt {t : Ty} {v : Node} : Fits enc t v → Fits enc (.opt t) v
   | prop {t : Ty} {v : Node} : Fits enc t v → Fits enc (.prop t) v
   | seq {t : Ty} {vs : List Node} : (∀ v, v ∈ expandNodes vs → Fits enc t v) → Fits enc (.seq t) (.arr vs)
-  | map {t : Ty} {dfs : List (Bytes × Op × Node)} : (∀ k o v, (k, o, v) ∈ dfs → Fits enc t v) → Fits enc (.map t) (.obj dfs)
-  | st {fs : List (Bytes × Ty)} {dfs : List (Bytes × Op × Node)} :
-      (∀ k o v, (k, o, v) ∈ dfs → ∀ i t, lookupIdx (decode enc k) fs 0 = some (i, t) → Fits enc t v) →
+  | map {t : Ty} {dfs : List (Key × Op × Node)} : (∀ k o v, (k, o, v) ∈ dfs → Fits enc t v) → Fits enc (.map t) (.obj dfs)
+  | st {fs : List (Bytes × Ty)} {dfs : List (Key × Op × Node)} :
+      (∀ k o v, (k, o, v) ∈ dfs → ∀ i t, lookupIdx (decode enc k.bytes) fs 0 = some (i, t) → Fits enc t v) →
       Fits enc (.st fs) (.obj dfs)
   /-- `any` on an array of scalars / arrays, to any depth -/
   | anyArr {vs : List Node} : anyOks vs = true → Fits enc .any (.arr vs)
@@ -280,10 +319,14 @@ inductive Fits (enc : Enc) : Ty → Node → Prop where
   | emptySt {fs : List (Bytes × Ty)} : Fits enc (.st fs) (.arr [])
   /-- MISMATCHES both paths reject in the same way (`invalid type`): a typed scalar or a string
   requested for a container, a map or a struct requested for a scalar -/
-  | leafOnObj {ty : Ty} {dfs : List (Bytes × Op × Node)} : Ty.isTypedLeaf ty = true → Fits enc ty (.obj dfs)
+  | leafOnObj {ty : Ty} {dfs : List (Key × Op × Node)} : Ty.isTypedLeaf ty = true → Fits enc ty (.obj dfs)
   | leafOnArr {ty : Ty} {vs : List Node} : Ty.isTypedLeaf ty = true → Fits enc ty (.arr vs)
   | mapOnLeaf {t : Ty} {l : Leaf} : Fits enc (.map t) (.leaf l)
   | stOnLeaf {fs : List (Bytes × Ty)} {l : Leaf} : Fits enc (.st fs) (.leaf l)
+  /-- a fixed-length tuple on an array that is NOT LONGER than the tuple (a shorter one: `invalid length`
+  on both paths); a longer array is where the paths differ (`Bad.tupLong`) -/
+  | tup {ts : List Ty} {vs : List Node} : (expandNodes vs).length ≤ ts.length →
+      (∀ t x, (t, x) ∈ List.zip ts (expandNodes vs) → Fits enc t x) → Fits enc (.tup ts) (.arr vs)
 
 /-- `Fits` as the tape path needs it (and therefore the agreement of the two paths).  The flag says
 whether the value is in field position: `Property` captures an operator only there (an array element
@@ -299,34 +342,36 @@ inductive FitsT (enc : Enc) : Bool → Ty → Node → Prop where
   | prop {t : Ty} {v : Node} : FitsT enc false t v → FitsT enc true (.prop t) v
   | seq {b : Bool} {t : Ty} {vs : List Node} :
       (∀ v, v ∈ expandNodes vs → FitsT enc false t v) → FitsT enc b (.seq t) (.arr vs)
-  | map {b : Bool} {t : Ty} {dfs : List (Bytes × Op × Node)} :
+  | map {b : Bool} {t : Ty} {dfs : List (Key × Op × Node)} :
       (∀ k o v, (k, o, v) ∈ dfs → FitsT enc true t v) → FitsT enc b (.map t) (.obj dfs)
-  | st {b : Bool} {fs : List (Bytes × Ty)} {dfs : List (Bytes × Op × Node)} :
-      (∀ k o v, (k, o, v) ∈ dfs → ∀ i t, lookupIdx (decode enc k) fs 0 = some (i, t) → FitsT enc true t v) →
+  | st {b : Bool} {fs : List (Bytes × Ty)} {dfs : List (Key × Op × Node)} :
+      (∀ k o v, (k, o, v) ∈ dfs → ∀ i t, lookupIdx (decode enc k.bytes) fs 0 = some (i, t) → FitsT enc true t v) →
       FitsT enc b (.st fs) (.obj dfs)
   | anyArr {b : Bool} {vs : List Node} : anyOks vs = true → FitsT enc b .any (.arr vs)
   | emptyMap {b : Bool} {t : Ty} : FitsT enc b (.map t) (.arr [])
   | emptySt {b : Bool} {fs : List (Bytes × Ty)} : FitsT enc b (.st fs) (.arr [])
-  | leafOnObj {b : Bool} {ty : Ty} {dfs : List (Bytes × Op × Node)} : Ty.isTypedLeaf ty = true → FitsT enc b ty (.obj dfs)
+  | leafOnObj {b : Bool} {ty : Ty} {dfs : List (Key × Op × Node)} : Ty.isTypedLeaf ty = true → FitsT enc b ty (.obj dfs)
   | leafOnArr {b : Bool} {ty : Ty} {vs : List Node} : Ty.isTypedLeaf ty = true → FitsT enc b ty (.arr vs)
   | mapOnLeaf {b : Bool} {t : Ty} {l : Leaf} : FitsT enc b (.map t) (.leaf l)
   | stOnLeaf {b : Bool} {fs : List (Bytes × Ty)} {l : Leaf} : FitsT enc b (.st fs) (.leaf l)
+  | tup {b : Bool} {ts : List Ty} {vs : List Node} : (expandNodes vs).length ≤ ts.length →
+      (∀ t x, (t, x) ∈ List.zip ts (expandNodes vs) → FitsT enc false t x) → FitsT enc b (.tup ts) (.arr vs)
 
 /-- the complement of `FitsT`: the (type, value) pair contains a combination on which the two paths
 are NOT claimed to agree.  Every atomic combination listed here has a witness on which the modelled
 paths (and the real code) do disagree, see `C02_divergent_*` in Props/C02. -/
 inductive Bad (enc : Enc) : Bool → Ty → Node → Prop where
   /-- `any` presents an object as a map on the tape path, as the bare token sequence on the stream path -/
-  | anyObj {b : Bool} {dfs : List (Bytes × Op × Node)} : Bad enc b .any (.obj dfs)
+  | anyObj {b : Bool} {dfs : List (Key × Op × Node)} : Bad enc b .any (.obj dfs)
   | anyArr {b : Bool} {vs : List Node} : anyOks vs = false → Bad enc b .any (.arr vs)
   /-- `any` on a header value: the body (tape) / the name (stream) -/
   | anyHdr {b : Bool} {n : Bytes} {body : Node} : Bad enc b .any (.hdr n body)
   /-- an enum requested for a container: the tape path takes the first element as the variant -/
-  | enObj {b : Bool} {vs : List Bytes} {dfs : List (Bytes × Op × Node)} : Bad enc b (.en vs) (.obj dfs)
+  | enObj {b : Bool} {vs : List Bytes} {dfs : List (Key × Op × Node)} : Bad enc b (.en vs) (.obj dfs)
   | enArr {b : Bool} {vs : List Bytes} {xs : List Node} : Bad enc b (.en vs) (.arr xs)
   /-- a sequence requested for something that is not an array: the stream path ignores the current token -/
   | seqLeaf {b : Bool} {t : Ty} {l : Leaf} : Bad enc b (.seq t) (.leaf l)
-  | seqObj {b : Bool} {t : Ty} {dfs : List (Bytes × Op × Node)} : Bad enc b (.seq t) (.obj dfs)
+  | seqObj {b : Bool} {t : Ty} {dfs : List (Key × Op × Node)} : Bad enc b (.seq t) (.obj dfs)
   | seqHdr {b : Bool} {t : Ty} {n : Bytes} {body : Node} : Bad enc b (.seq t) (.hdr n body)
   /-- a map / struct requested for a non-empty array (tape: the synthetic `remainder` key) or a header value -/
   | mapArr {b : Bool} {t : Ty} {x : Node} {xs : List Node} : Bad enc b (.map t) (.arr (x :: xs))
@@ -338,15 +383,40 @@ inductive Bad (enc : Enc) : Bool → Ty → Node → Prop where
   | opt {b : Bool} {t : Ty} {v : Node} : Bad enc b t v → Bad enc b (.opt t) v
   | prop {t : Ty} {v : Node} : Bad enc false t v → Bad enc true (.prop t) v
   | seqElem {b : Bool} {t : Ty} {vs : List Node} {v : Node} : v ∈ expandNodes vs → Bad enc false t v → Bad enc b (.seq t) (.arr vs)
-  | mapElem {b : Bool} {t : Ty} {dfs : List (Bytes × Op × Node)} {k : Bytes} {o : Op} {v : Node} :
+  | mapElem {b : Bool} {t : Ty} {dfs : List (Key × Op × Node)} {k : Key} {o : Op} {v : Node} :
       (k, o, v) ∈ dfs → Bad enc true t v → Bad enc b (.map t) (.obj dfs)
-  | stElem {b : Bool} {fs : List (Bytes × Ty)} {dfs : List (Bytes × Op × Node)} {k : Bytes} {o : Op} {v : Node} {i : Nat} {t : Ty} :
-      (k, o, v) ∈ dfs → lookupIdx (decode enc k) fs 0 = some (i, t) → Bad enc true t v → Bad enc b (.st fs) (.obj dfs)
+  /-- a fixed-length tuple on a LONGER array: the tape path takes the prefix, the reader path demands the closing
+  brace; on something that is not an array: as for sequences -/
+  | tupLong {b : Bool} {ts : List Ty} {vs : List Node} : ts.length < (expandNodes vs).length → Bad enc b (.tup ts) (.arr vs)
+  | tupLeaf {b : Bool} {ts : List Ty} {l : Leaf} : Bad enc b (.tup ts) (.leaf l)
+  | tupObj {b : Bool} {ts : List Ty} {dfs : List (Key × Op × Node)} : Bad enc b (.tup ts) (.obj dfs)
+  | tupHdr {b : Bool} {ts : List Ty} {n : Bytes} {body : Node} : Bad enc b (.tup ts) (.hdr n body)
+  | tupElem {b : Bool} {ts : List Ty} {vs : List Node} {t : Ty} {x : Node} :
+      (t, x) ∈ List.zip ts (expandNodes vs) → Bad enc false t x → Bad enc b (.tup ts) (.arr vs)
+  | stElem {b : Bool} {fs : List (Bytes × Ty)} {dfs : List (Key × Op × Node)} {k : Key} {o : Op} {v : Node} {i : Nat} {t : Ty} :
+      (k, o, v) ∈ dfs → lookupIdx (decode enc k.bytes) fs 0 = some (i, t) → Bad enc true t v → Bad enc b (.st fs) (.obj dfs)
 
 /-! ### parser outputs a document stands for -/
 
 def Leaf.rtok (l : Leaf) : RTok := if l.quoted then .quo l.bytes else .unq l.bytes
 def Leaf.ttok (l : Leaf) : TTok := if l.quoted then .quo l.bytes else .unq l.bytes
+def Key.rtok (k : Key) : RTok := if k.quoted then .quo k.bytes else .unq k.bytes
+def Key.ttok (k : Key) : TTok := if k.quoted then .quo k.bytes else .unq k.bytes
+
+/-- `{ … }` -/
+def Node.isBraced : Node → Bool
+  | .obj _ | .arr _ => true
+  | _ => false
+
+/-- reader tokens of `n` empty `{}` -/
+def ghostToks : Nat → List RTok
+  | 0 => []
+  | n + 1 => RTok.open_ :: RTok.close :: ghostToks n
+
+/-- the operator token between a key and its value: missing where the key asks for the implicit `=`
+and the syntax allows it -/
+def eqToks (k : Key) (o : Op) (v : Node) : List RTok :=
+  if k.noEq && decide (o = .eq) && v.isBraced then [] else [RTok.op o]
 
 mutual
 /-- reader tokens of a value -/
@@ -355,9 +425,10 @@ def lexNode : Node → List RTok
   | .obj fs => RTok.open_ :: lexFields fs ++ [RTok.close]
   | .arr vs => RTok.open_ :: lexNodes vs ++ [RTok.close]
   | .hdr n b => RTok.unq n :: lexNode b
-def lexFields : List (Bytes × Op × Node) → List RTok
+def lexFields : List (Key × Op × Node) → List RTok
   | [] => []
-  | (k, o, v) :: r => RTok.unq k :: RTok.op o :: (lexNode v ++ lexFields r)
+  | (k, o, v) :: r =>
+    ghostToks k.ghosts ++ (k.rtok :: (eqToks k o v ++ (lexNode v ++ (ghostToks k.trail ++ lexFields r))))
 def lexNodes : List Node → List RTok
   | [] => []
   | v :: r => lexNode v ++ lexNodes r
@@ -379,12 +450,12 @@ def tapeNode : Nat → Node → List TTok
     let body := tapeNodes (base + 1) vs
     TTok.arr (base + 1 + body.length) false :: body ++ [TTok.end_ base]
   | base, .hdr n b => TTok.hdr n :: tapeNode (base + 1) b
-def tapeFields : Nat → List (Bytes × Op × Node) → List TTok
+def tapeFields : Nat → List (Key × Op × Node) → List TTok
   | _, [] => []
   | base, (k, o, v) :: r =>
     let opToks : List TTok := match o with | .eq => [] | o => [TTok.op o]
     let val := tapeNode (base + 1 + opToks.length) v
-    TTok.unq k :: opToks ++ val ++ tapeFields (base + 1 + opToks.length + val.length) r
+    k.ttok :: opToks ++ val ++ tapeFields (base + 1 + opToks.length + val.length) r
 def tapeNodes : Nat → List Node → List TTok
   | _, [] => []
   | base, .hdr n b :: r =>
